@@ -86,6 +86,31 @@ mod verif_driver_ops {
         println!("VERIF-CASES fn=eval_size_fees n={n}");
     }
 
+    // C02: the chain-time conversions are exact (1 slot = 1000 ms from the cursor, truncating division towards zero)
+    #[test]
+    fn slot_time_conversions_exact() {
+        let mut n = 0;
+        let cursor = crate::ChainPoint { slot: 1_000, hash: vec![], timestamp: 5_000_000 };
+        for slot in [0i128, 1, 999, 1_000, 1_001, 2_000, u64::MAX as i128] {
+            n += 1;
+            let want = 5_000_000i128 + (slot - 1_000) * 1000;
+            match quiet(|| slot_to_time(slot, &cursor)) {
+                Ok(v) => if v != want { witness("c02_ops/slot_to_time#postcondition", "slot_to_time", format!("slot={slot} cursor=(1000, 5000000)"), format!("{v}"), &format!("{want}")) },
+                Err(pn) => witness("c14_ops/slot_to_time#arithmetic-overflow", "slot_to_time", format!("slot={slot}"), format!("panic:{pn}"), "a value"),
+            }
+        }
+        for time in [0i128, 1, 4_999_000, 4_999_001, 4_999_999, 5_000_000, 5_000_999, 5_001_000, 9_000_500, 1 << 100] {
+            n += 1;
+            let want = 1_000i128 + (time - 5_000_000) / 1000;
+            match quiet(|| time_to_slot(time, &cursor)) {
+                Ok(v) => if v != want { witness("c02_ops/time_to_slot#postcondition", "time_to_slot", format!("time={time} cursor=(1000, 5000000)"), format!("{v}"), &format!("{want}")) },
+                Err(pn) => witness("c14_ops/time_to_slot#arithmetic-overflow", "time_to_slot", format!("time={time}"), format!("panic:{pn}"), "a value"),
+            }
+        }
+        println!("VERIF-CASES fn=slot_to_time n={n}");
+        println!("VERIF-CASES fn=time_to_slot n={n}");
+    }
+
     #[test]
     fn min_utxo_index() {
         let mut n = 0;
@@ -125,7 +150,11 @@ mod verif_driver_ops {
                     n += 1;
                     match quiet(|| compute_min_utxo(tir::Expression::Number(idx), &body, 4310)) {
                         Err(pn) => witness("c14_ops/compute_min_utxo#reachable-panic", "compute_min_utxo", format!("index={idx} body with 2 outputs"), format!("panic:{pn}"), "Ok or Err"),
-                        Ok(Ok(_)) => if !(0..2).contains(&idx) { witness("c14_ops/compute_min_utxo#postcondition", "compute_min_utxo", format!("index={idx} body with 2 outputs"), "Ok".into(), "an index that does not exist is an error") },
+                        Ok(Ok(v)) => if !(0..2).contains(&idx) { witness("c14_ops/compute_min_utxo#postcondition", "compute_min_utxo", format!("index={idx} body with 2 outputs"), "Ok".into(), "an index that does not exist is an error") } else {
+                            // CIP-55: (160 + serialised size of that output) x coins per byte
+                            let size = pallas::codec::minicbor::to_vec(&body.as_ref().unwrap().outputs[idx as usize]).unwrap().len() as i128;
+                            if v != (160 + size) * 4310 { witness("c14_ops/compute_min_utxo#postcondition", "compute_min_utxo", format!("index={idx} body with 2 outputs class=formula"), format!("{v}"), &format!("{} = (160 + {size}) x 4310", (160 + size) * 4310)); }
+                        },
                         Ok(Err(_)) => if (0..2).contains(&idx) { witness("c14_ops/compute_min_utxo#postcondition", "compute_min_utxo", format!("index={idx} body with 2 outputs"), "Err".into(), "an existing output index is accepted") },
                     }
                 }
